@@ -517,7 +517,8 @@ def run_case(ctx, idx):
     default_pen = width < 40 and rng.random() < 0.5
     penalty = 100 if default_pen else float(round(2 * width + 1 + rng.random(), 3))
     project = [psi_c] if default_pen else [(penalty, psi_c)]
-    dn.add_penalty(penalty, vs)
+    vphi, _ = T.mps_dense(psi_c, sp)       # the projected MPS exactly as it is (its norm can deviate from 1, see EIGS_KEY)
+    dn.add_penalty(penalty, vphi[dn.idx])
     psi_p = T.make_mps(rng, cs["nprng"], sp, N, n, mode="full", dtype=rng.choice(("float64", "complex128")), counts=counts)
     m3 = rng.choice(("1site", "2site"))
     cfg3 = {"methods": [m3] * 40, "use_Method": False, "precompute": rng.random() < 0.5,
